@@ -182,7 +182,19 @@ func printSchemaLine() {
 	if !schemaLinePrinted {
 		schemaLinePrinted = true
 		emit("sd schema "+schemaID+" "+recgen.SchemaEncoding(model.Schema), "ok")
+		// the Lean ENCODER sub-driver keeps its own schema table
+		emit("se schema "+schemaID+" "+recgen.SchemaEncoding(model.Schema), "ok")
 	}
+}
+
+// emitReencode asks the Lean model to decode the (uncompressed-equivalent) stream with the marked
+// specification decoder, to re-encode every frame's records with the schema-generic Lean encoder
+// (Stef/SpecEnc.lean: encodeNode, marks recovered from the stream, same frame boundaries and
+// restart flags) and to compare every frame's content (record count, size table, all column
+// data) byte for byte with what the real writer produced. Expected output: "same".
+func emitReencode(rootName, hexStream string) {
+	emit(fmt.Sprintf("se reencode %s %s %s", schemaID, rootName, hexStream), "same")
+	stats["reencode-ops"]++
 }
 
 // openReader is the recgen callback that yields a reader's record after nread reads.
